@@ -48,6 +48,8 @@ func ChildDispatch() {
 		code = writerChild()
 	case "jail":
 		code = jailChild()
+	case "stress":
+		code = stressChild()
 	default:
 		fmt.Fprintln(os.Stderr, "mboxkit: unknown child mode", mode)
 		code = 97
